@@ -799,6 +799,15 @@ def gen_aux_order(tier, rng):
         data = data_list(rng, names)
         style = rng.choice(['dump', 'dump', 'rev', 'bytitle', 'types', 'count'])
         cites = rng.choice([['*'], ['*'], [shared, '*'], ['*', shared.upper()], rand_cites(rng)])
+        if i % 3 == 0:
+            # every cited key sits in the first file; the entry they cross-reference (not cited itself) in the LAST one
+            par = 'par%d' % (i % 7)
+            kids = [['kid1', 'inbook', [['crossref', par], ['note', 'n1']]], ['kid2', 'inbook', [['title', 'own'], ['crossref', par]]]]
+            parts = [[e for e in p if e[0].lower() not in ('kid1', 'kid2', par)] for p in parts]
+            parts[0] = kids + parts[0]
+            parts[-1] = parts[-1] + [[par, 'book', [['title', 'The Parent'], ['year', '1999'], ['booktitle', 'BT']]]]
+            data = list(names)
+            cites = rng.choice([['kid1', 'kid2'], ['kid2', 'kid1'], ['kid1']]) + [e[0] for e in parts[0][2:3]]
         files = [bst_file(style)] + [[nm + '.bib', 2, [0, p]] for nm, p in zip(names, parts)]
         files.append(['doc.aux', 0, aux_lines(cites, style, data, rng)])
         yield ('engine_aux_file_order', 2, [files, [0, 'doc.aux', [], [], rng.choice([2, 1])]])
@@ -1103,5 +1112,60 @@ def extra_checks(ck, tier, rng):
                 mf.append(('\\bibdata{%s} (style %s)' % (','.join(data), style), what, True))
     yield {'name': 'aux_database_order_with_macros', 'evaluations': mn, 'failures': mf[:5],
            'info': 'the databases of \\bibdata{...} are read in the order named (non-alphabetical, one name twice): macros of earlier files known later, first occurrence of a repeated key wins, items of \\citation{*} in file order'}
+    # several database files (names / file objects / \\bibdata list) are ONE database: the output is that of the concatenated
+    # text -- @preamble of every file (styles that write preamble$), an uncited cross-reference parent in the LAST file whose
+    # children are cited from the first.  @preamble parsing is outside the model: oracle only.
+    cf, cn = [], 0
+    pre_style = norm(SYN['dump'][:2] + [cmd('FUNCTION', [Id('pre')], [Id('preamble$'), Id('write$'), Id('newline$')]), cmd('READ'),
+                                        cmd('EXECUTE', [Id('pre')]), cmd('ITERATE', [Id('f')])])
+    for i in range(12 if tier == 'quick' else 80):
+        nfiles = rng.choice([2, 3])
+        names = rng.sample(['zeta', 'mid', 'alpha', 'beta'], nfiles)
+        texts = []
+        for k in range(nfiles):
+            t = '@preamble{"\\\\newcommand{\\\\from%s}{%d} "}\n' % (names[k], k)
+            if k == 0:
+                t += '@inbook{kid1, title = {Kid One}, crossref = {par}}\n@inbook{kid2, note = {n2}, crossref = {par}}\n@misc{solo, title = {Solo}}\n'
+            if k == nfiles - 1:
+                t += '@book{par, title = {The Parent}, year = {1999}, booktitle = {BT}}\n'
+            t += '@misc{u%d, title = {uncited %d}}\n' % (k, k)
+            texts.append(t)
+        cites = rng.choice([['kid1', 'kid2', 'solo'], ['kid2', 'solo'], ['solo', 'kid1']])
+        m = rng.choice([1, 2])
+        use_plain = i % 3 == 2
+        with U.scratch():
+            for nm, t in zip(names, texts):
+                open(nm + '.bib', 'w').write(t)
+            if use_plain:
+                sty = os.path.join(U.DATA, 'plain')
+            else:
+                open('prestyle.bst', 'w').write(U.to_bst(pre_style)); sty = 'prestyle'
+            open('doc.aux', 'w').write('\\relax\n' + ''.join('\\citation{%s}\n' % c for c in cites) + '\\bibstyle{%s}\n\\bibdata{%s}\n' % (sty, ','.join(names)))
+            cn += 1
+            try:
+                with errors.capture():
+                    want = B.format_from_string(''.join(texts), style=sty, citations=list(cites), min_crossrefs=m)
+                    by_files = B.format_from_files([nm + '.bib' for nm in names], style=sty, citations=list(cites), min_crossrefs=m)
+                    by_strings = B.format_from_strings(list(texts), style=sty, citations=list(cites), min_crossrefs=m)
+                    B.make_bibliography('doc.aux', min_crossrefs=m)
+                by_aux = open('doc.bbl', encoding='utf-8', newline='').read()
+            except Exception as e:
+                cf.append(('files %r citations %r' % (names, cites), 'raised %r' % (e,), True)); continue
+            what = None
+            for label, got in (('format_from_files', by_files), ('format_from_strings', by_strings), ('make_bibliography', by_aux)):
+                if got != want:
+                    what = '%s over %d files differs from the run over the concatenated text: %r vs %r' % (label, nfiles, got[:400], want[:400]); break
+            if not what:
+                flat = want.replace('\n', ' ')
+                if any(('from%s' % nm) not in want for nm in names):
+                    what = 'a file\'s @preamble is missing from the output: %r' % want[:300]
+                elif not use_plain and 'kid1' in cites and 'Kid One\n1999' not in want:
+                    what = 'kid1 did not inherit the year of its cross-referenced parent (last file): %r' % want[:400]
+                elif not use_plain and ('[par]' in want) != (len([c for c in cites if c.startswith('kid')]) >= m):
+                    what = 'the cross-referenced parent is %s although %d cited entries refer to it (min_crossrefs %d)' % ('present' if '[par]' in want else 'missing', len([c for c in cites if c.startswith('kid')]), m)
+            if what:
+                cf.append(('\\bibdata{%s}, citations %r, min_crossrefs %d, style %s' % (','.join(names), cites, m, 'plain' if use_plain else 'dump + preamble$'), what, True))
+    yield {'name': 'several_files_are_one_database', 'evaluations': cn, 'failures': cf[:5],
+           'info': 'format_from_files / format_from_strings / make_bibliography over 2-3 files == format_from_string of the concatenation; every @preamble written; the uncited parent in the last file found (inheritance, min_crossrefs)'}
     yield {'name': 'command_line_plumbing', 'evaluations': n, 'failures': fails[:5],
            'info': 'pybtex [-s style] [-f format] [--min-crossrefs n] file[.aux] writes what format_from_files(style, format, min_crossrefs) returns'}
